@@ -12,10 +12,6 @@ Fixpoint body_upto (msgs : list rmsg) : bytes :=
 Fixpoint ends (msgs : list rmsg) : bool :=
   match msgs with [] => false | (_, more) :: r => negb more || ends r end.
 
-Lemma Zlen_app a b : Zlen (a ++ b) = (Zlen a + Zlen b)%Z.
-Proof. unfold Zlen. rewrite app_length. lia. Qed.
-Lemma Zlen_nonneg a : (0 <= Zlen a)%Z.
-Proof. unfold Zlen. lia. Qed.
 
 Lemma accumulate_spec max : forall msgs acc, ends msgs = true ->
   accumulate max acc msgs =
